@@ -471,5 +471,8 @@ def run(M, rep, tier, only=None):
     from . import c06, c15
     c06.layer_region_rule(M, rep, R7)
     c15.raw_value_access_rule(Ctx(M).cg, rep, R8)
+    R9 = rep.rule("C01.R9", "a read keeps the shape of the region: only a 0-dimensional result is turned into a one-element array", floor=1,
+                  technique="guard of the reshaping path (shared with C06.R6)")
+    c06.reshape_rule(M, rep, R9)
     if not n:
         rep.bad(R6, "array handles", "required mechanism not found")
